@@ -457,4 +457,60 @@ theorem adjust_hue_360_hwba (w : Hwba Rat) (h : w.WF) (h0 : 0 ≤ w.h) (h1 : w.h
 outside `[0, 360)` (e.g. `hwb(400 …)`, or the result of an earlier `adjust-hue`): needs
 `degMod (x + 360) = degMod x` for every `x` (periodicity of the truncated remainder across zero). -/
 
+/-! ## hwba-stored colours with ANY stored hue (through `degMod_periodic`) -/
+
+/-- FULL for hwba-stored colours, any stored hue: `complement(complement(c))` is `c`. -/
+theorem complement_invol_hwba_any (w : Hwba Rat) (h : w.WF) :
+    (((Col.hwba w).rotateHue CQuirks.spec 180).rotateHue CQuirks.spec 180).eqv CQuirks.spec (Col.hwba w)
+      = true := by
+  have e1 : (Col.hwba w).rotateHue CQuirks.spec 180 = Col.hwba { w with h := w.h + 180 } := by
+    show Col.hwba (Hwba.new CQuirks.spec (w.h + 180) w.w w.b w.a) = _
+    rw [Hwba.new_id w h]
+  have e2 : (Col.hwba ({ w with h := w.h + 180 } : Hwba Rat)).rotateHue CQuirks.spec 180
+      = Col.hwba { w with h := w.h + 180 + 180 } := by
+    show Col.hwba (Hwba.new CQuirks.spec (w.h + 180 + 180) w.w w.b w.a) = _
+    rw [Hwba.new_id w h]
+  rw [e1, e2]
+  have hd : degMod CQuirks.spec (w.h + 180 + 180) = degMod CQuirks.spec w.h := by
+    have : w.h + 180 + 180 = w.h + 360 := by ring
+    rw [this, degMod_periodic]
+  have hc := Hwba.toHsla_hue_congr w (w.h + 180 + 180) w.h hd
+  have key : (Col.hwba ({ w with h := w.h + 180 + 180 } : Hwba Rat)).toRgba CQuirks.spec
+      = (Col.hwba w).toRgba CQuirks.spec := by
+    show (({ w with h := w.h + 180 + 180 } : Hwba Rat).toHsla CQuirks.spec).toRgba
+      = (({ w with h := w.h } : Hwba Rat).toHsla CQuirks.spec).toRgba
+    rw [hc]
+  exact eqv_spec_of_chan _ _ (by rw [key]) (by rw [key]) (by rw [key]) (by rw [key])
+
+/-- FULL for hwba-stored colours, any stored hue: `adjust-hue(c, 360deg)` is `c`. -/
+theorem adjust_hue_360_hwba_any (w : Hwba Rat) (h : w.WF) :
+    ((Col.hwba w).rotateHue CQuirks.spec 360).eqv CQuirks.spec (Col.hwba w) = true := by
+  have e1 : (Col.hwba w).rotateHue CQuirks.spec 360 = Col.hwba { w with h := w.h + 360 } := by
+    show Col.hwba (Hwba.new CQuirks.spec (w.h + 360) w.w w.b w.a) = _
+    rw [Hwba.new_id w h]
+  rw [e1]
+  have hc := Hwba.toHsla_hue_congr w (w.h + 360) w.h (degMod_periodic w.h)
+  have key : (Col.hwba ({ w with h := w.h + 360 } : Hwba Rat)).toRgba CQuirks.spec
+      = (Col.hwba w).toRgba CQuirks.spec := by
+    show (({ w with h := w.h + 360 } : Hwba Rat).toHsla CQuirks.spec).toRgba
+      = (({ w with h := w.h } : Hwba Rat).toHsla CQuirks.spec).toRgba
+    rw [hc]
+  exact eqv_spec_of_chan _ _ (by rw [key]) (by rw [key]) (by rw [key]) (by rw [key])
+
+/-- FULL STATEMENT over every representation: `complement(complement(c))` is `c`. -/
+theorem complement_invol (c : Col Rat) (h : c.WF) :
+    ((c.rotateHue CQuirks.spec 180).rotateHue CQuirks.spec 180).eqv CQuirks.spec c = true := by
+  cases c with
+  | rgba r => exact complement_invol_rgba r h
+  | hsla s => exact complement_invol_partial s h
+  | hwba w => exact complement_invol_hwba_any w h
+
+/-- FULL STATEMENT over every representation: `adjust-hue(c, 360deg)` is `c`. -/
+theorem adjust_hue_360 (c : Col Rat) (h : c.WF) :
+    (c.rotateHue CQuirks.spec 360).eqv CQuirks.spec c = true := by
+  cases c with
+  | rgba r => exact adjust_hue_360_rgba r h
+  | hsla s => exact adjust_hue_360_partial s h
+  | hwba w => exact adjust_hue_360_hwba_any w h
+
 end C32
